@@ -141,6 +141,10 @@ func (v *VM) exec() {
 		case codeGlobalSet:
 			a := v.stack[len(v.stack)-1]
 			v.stack = v.stack[:len(v.stack)-1]
+			if codes[v.frame.N].B == 1 { // a constant declaration or a hidden slot: the value is kept as it is (an untyped constant stays untyped)
+				v.globals.Write(int(codes[v.frame.N].A), a)
+				break
+			}
 			v.globals.Assign(int(codes[v.frame.N].A), a)
 
 		case codeGlobalZero:
@@ -198,6 +202,10 @@ func (v *VM) exec() {
 
 		case codeLocalSet:
 			i := &codes[v.frame.N]
+			if i.B == 1 { // see GLOBALSET
+				v.stack, v.stack[baseN+int(i.A)] = v.stack[:len(v.stack)-1], v.stack[len(v.stack)-1]
+				break
+			}
 			v.stack, v.stack[baseN+int(i.A)] = v.stack[:len(v.stack)-1], v.stack[len(v.stack)-1].assign(v.stack[baseN+int(i.A)].t)
 
 		case codeLocalZero:
